@@ -4,6 +4,7 @@
 #define TETL_CSTDLIB_STRTO_INTEGER_HPP
 
 #include <etl/_cctype/isspace.hpp>
+#include <etl/_cctype/isxdigit.hpp>
 #include <etl/_concepts/integral.hpp>
 #include <etl/_concepts/signed_integral.hpp>
 #include <etl/_cstddef/size_t.hpp>
@@ -16,9 +17,10 @@ namespace etl::detail {
 
 /// \brief The conversion shared by strtol, strtoll, strtoul, strtoull and the
 /// sto* functions. Splits the subject sequence of the C standard (white space,
-/// optional sign, digits), lets strings::to_integer
+/// optional sign, optional 0x/0X prefix, digits), lets strings::to_integer
 /// convert the digits as a magnitude and applies the sign in the result type.
 ///
+/// - base 16: an optional 0x/0X in front of the digits is skipped
 /// - the unsigned functions negate the value of a sequence with a minus sign
 /// - without any digits, or with a value outside the result type, end is
 ///   str.data() and value is 0
@@ -46,6 +48,13 @@ template <integral Int>
     if (pos != length and (str[pos] == '-' or str[pos] == '+')) {
         negative = str[pos] == '-';
         ++pos;
+    }
+
+    // 0x or 0X counts as prefix only in front of a hexadecimal digit
+    auto const hasHexPrefix = length - pos > 2 and str[pos] == '0' and (str[pos + 1] == 'x' or str[pos + 1] == 'X')
+                          and etl::isxdigit(static_cast<int>(str[pos + 2])) != 0;
+    if (base == 16 and hasHexPrefix) {
+        pos += 2;
     }
 
     auto const digits    = str.substr(pos);
